@@ -309,7 +309,7 @@ theorem reference_phase_never_hangs (lines cd : Nat) (hd : 0 < cd) (s : St) (hr 
     reference pipeline `git for-each-ref` → goroutine (two stages and the `p.Wait()` helper goroutine, `Model/PipelineR`) -/
 theorem pipelines_have_the_modelled_shape :
     Gen.Cmds.pipelineStages =
-      [("git/obj_iter.go", [("Function", "request-objects"), ("CommandStage", "git-rev-list"), ("LinewiseFunction", "copy-oids"),
+      [("git/obj_iter.go", [("Function", "request-objects"), ("CommandStage", "git-rev-list"), ("Function", "copy-oids"),
                             ("CommandStage", "git-cat-file"), ("Function", "object-parser")]),
        ("git/batch_obj_iter.go", [("Function", "request-objects"), ("CommandStage", "git-cat-file"), ("Function", "object-reader")]),
        ("git/ref_iter.go", [("CommandStage", "git-for-each-ref"), ("Function", "parse-refs")])] := by decide
